@@ -106,6 +106,73 @@ fn handshake(addr: SocketAddr, name: &str) -> Result<Vec<u8>, String> {
     Ok(Sha256::digest(certs[0].as_ref()).to_vec())
 }
 
+/// The start of a TLS 1.2 handshake whose ClientHello carries the server name exactly as given on the wire (trailing
+/// dot, capitals; a rustls client would trim and lower-case it): a rustls client's own ClientHello with the name bytes
+/// replaced, sent as is; the server answers ServerHello + Certificate in the clear, which is all that is needed (the
+/// handshake cannot complete: the transcripts differ).  -> fingerprint of the leaf certificate served
+fn wire_handshake(addr: SocketAddr, wire: &[u8]) -> Result<Vec<u8>, String> {
+    use std::io::{Read, Write};
+    let placeholder = "x".repeat(wire.len());
+    let config = ClientConfig::builder_with_provider(Arc::new(rustls::crypto::ring::default_provider()))
+        .with_protocol_versions(&[&rustls::version::TLS12])
+        .map_err(|e| e.to_string())?
+        .dangerous()
+        .with_custom_certificate_verifier(Arc::new(h2bb::Verifier))
+        .with_no_client_auth();
+    let sn = ServerName::try_from(placeholder.clone()).map_err(|e| format!("server name: {e}"))?;
+    let mut conn = rustls::ClientConnection::new(Arc::new(config), sn).map_err(|e| e.to_string())?;
+    let mut hello = Vec::new();
+    conn.write_tls(&mut hello).map_err(|e| e.to_string())?;
+    let pos = hello.windows(wire.len()).position(|w| w == placeholder.as_bytes()).ok_or("server name not found in the ClientHello")?;
+    hello[pos..pos + wire.len()].copy_from_slice(wire);
+    let mut tcp = TcpStream::connect(addr).map_err(|e| e.to_string())?;
+    tcp.set_read_timeout(Some(Duration::from_secs(10))).ok();
+    tcp.set_write_timeout(Some(Duration::from_secs(10))).ok();
+    tcp.write_all(&hello).map_err(|e| e.to_string())?;
+    // handshake records (type 22) concatenated; messages: type(1) length(3) body
+    let (mut raw, mut hs): (Vec<u8>, Vec<u8>) = (vec![], vec![]);
+    let mut buf = [0u8; 8192];
+    loop {
+        // whole records out of raw
+        while raw.len() >= 5 {
+            let len = u16::from_be_bytes([raw[3], raw[4]]) as usize;
+            if raw.len() < 5 + len {
+                break;
+            }
+            match raw[0] {
+                22 => hs.extend_from_slice(&raw[5..5 + len]),
+                21 => return Err(format!("alert {:?}", &raw[5..5 + len])),
+                _ => {}
+            }
+            raw.drain(..5 + len);
+        }
+        let mut at = 0;
+        while hs.len() >= at + 4 {
+            let len = u32::from_be_bytes([0, hs[at + 1], hs[at + 2], hs[at + 3]]) as usize;
+            if hs.len() < at + 4 + len {
+                break;
+            }
+            if hs[at] == 11 {
+                let b = &hs[at + 4..at + 4 + len];
+                if b.len() < 6 {
+                    return Err("empty certificate list".into());
+                }
+                let clen = u32::from_be_bytes([0, b[3], b[4], b[5]]) as usize;
+                if b.len() < 6 + clen {
+                    return Err("truncated certificate".into());
+                }
+                return Ok(Sha256::digest(&b[6..6 + clen]).to_vec());
+            }
+            at += 4 + len;
+        }
+        match tcp.read(&mut buf) {
+            Ok(0) => return Err("connection closed before the Certificate message".into()),
+            Ok(n) => raw.extend_from_slice(&buf[..n]),
+            Err(e) => return Err(format!("read: {e}")),
+        }
+    }
+}
+
 fn run_with(pool: &[(String, String)], case: &Case, out: &mut Out) {
     let mut w = h2bb::start_worker();
     let front: SocketAddr = format!("127.0.0.1:{}", own_port()).parse().unwrap();
@@ -169,6 +236,42 @@ fn run_with(pool: &[(String, String)], case: &Case, out: &mut Out) {
                 out.obs(&[ts(if got == Some(true) { "ok" } else { "err" })]);
                 if got != Some(exp_ok.is_ok()) {
                     out.viol("worker-answer", &format!("ReplaceCertificate: worker answered {got:?}, the resolver {}", exp_ok.is_ok()));
+                }
+            }
+            "hello" => {
+                // the server name as a peer may write it (absolute form, capitals); the connection's name is its
+                // lower-case relative form, and the certificate served must be the resolver's for THAT name
+                let wire = s(a[0].b());
+                let mut n = a[0].b().to_ascii_lowercase();
+                if n.last() == Some(&b'.') {
+                    n.pop();
+                }
+                if ServerName::try_from(s(&n)).is_err() || n.contains(&b'*') || s(&n).parse::<std::net::IpAddr>().is_ok() {
+                    out.obs(&[ts("skipped")]);
+                    continue;
+                }
+                let expected = shadow.domain_lookup(&n, true).map(|(_, f)| f.0.clone());
+                match wire_handshake(front, a[0].b()) {
+                    Ok(fp) => {
+                        out.obs(&[ts("fp"), tb(&fp)]);
+                        match expected {
+                            Some(e) if e != fp => out.viol(
+                                "handshake-differs",
+                                &format!("server name {wire} on the wire: the handshake presented {} but the resolver holds {} for {}", &hex(&fp)[..8], &hex(&e)[..8], s(&n)),
+                            ),
+                            None if loaded.contains(&fp) => out.viol(
+                                "handshake-differs",
+                                &format!("server name {wire} on the wire: no loaded certificate covers the name, yet the handshake presented the loaded certificate {}", &hex(&fp)[..8]),
+                            ),
+                            _ => {}
+                        }
+                    }
+                    Err(e) => {
+                        out.obs(&[ts("nohandshake")]);
+                        if expected.is_some() {
+                            out.viol("handshake-failed", &format!("server name {wire} on the wire: {e}"));
+                        }
+                    }
                 }
             }
             "sni" => {
